@@ -116,13 +116,14 @@ def _digest(s: str) -> str:
 
 def g_dataset(d) -> str:
     if isinstance(d, Table):
-        return ("{| dk := KTable; deq := %s; dstr := %s; dschema := %s |}"
-                % (coq_string(str(d)), coq_string(str(d)), coq_string(str(d.schema))))
+        return ("{| dk := KTable; deq := %s; dstr := %s; dschema := %s; draw := %s; dalias := %s; dquery := None |}"
+                % (coq_string(str(d)), coq_string(str(d)), coq_string(str(d.schema)), coq_string(d.raw_name), coq_string(d.alias)))
     if isinstance(d, Path):
-        return "{| dk := KPath; deq := %s; dstr := %s; dschema := \"\" |}" % (coq_string(str(d)), coq_string(str(d)))
+        return ("{| dk := KPath; deq := %s; dstr := %s; dschema := \"\"; draw := \"\"; dalias := \"\"; dquery := None |}"
+                % (coq_string(str(d)), coq_string(str(d))))
     if isinstance(d, SubQuery):
-        return ("{| dk := KSubq; deq := %s; dstr := %s; dschema := \"\" |}"
-                % (coq_string(_digest(d.query_raw)), coq_string(str(d))))
+        return ("{| dk := KSubq; deq := %s; dstr := %s; dschema := \"\"; draw := \"\"; dalias := %s; dquery := None |}"
+                % (coq_string(_digest(d.query_raw)), coq_string(str(d)), coq_string(str(d))))
     raise TypeError(repr(d))
 
 
@@ -162,21 +163,51 @@ def g_provider(truthy: bool, cols: dict) -> str:
     return "{| p_truthy := %s; p_cols := [%s] |}" % ("true" if truthy else "false", cs)
 
 
-def s_dataset(d) -> str:
-    return ("T:" if isinstance(d, Table) else "P:" if isinstance(d, Path) else "Q:") + str(d)
+def canon_name(d, canon) -> str:
+    """anonymous sub-queries are named subquery_<hash(text)> by the implementation; the model names them
+    after the text itself"""
+    if canon and isinstance(d, SubQuery) and d.alias == f"subquery_{hash(d)}":
+        return "subquery_<" + d.query_raw + ">"
+    return str(d)
 
 
-def s_node(n) -> str:
+def s_dataset(d, canon=False) -> str:
+    return ("T:" if isinstance(d, Table) else "P:" if isinstance(d, Path) else "Q:") + canon_name(d, canon)
+
+
+def col_name(c, canon=False) -> str:
+    p = c.parent
+    if p is not None and not isinstance(p, Path):
+        return canon_name(p, canon) + "." + c.raw_name
+    return c.raw_name
+
+
+def s_node(n, canon=False) -> str:
     if isinstance(n, (Table, Path, SubQuery)):
-        return s_dataset(n)
+        return s_dataset(n, canon)
     if isinstance(n, Column):
-        return "C:" + str(n) + "{" + ",".join(s_dataset(p) for p in n.parent_candidates) + "}"
+        return "C:" + col_name(n, canon) + "{" + ",".join(s_dataset(p, canon) for p in n.parent_candidates) + "}"
+    if canon and isinstance(n, str) and n.startswith("subquery_"):
+        return "A:" + n   # replaced below when the owner is known
     return "A:" + str(n)
 
 
-def s_graph(g) -> str:
-    ns = sorted(s_node(n) + "[" + ",".join(sorted(k for k, v in a.items() if v is True)) + "]" for n, a in g.nodes(data=True))
-    es = sorted(s_node(u) + ">" + s_node(v) + ":" + str(a.get("type", "")) for u, v, a in g.edges(data=True))
+def s_graph(g, canon=False) -> str:
+    anon = {}
+    if canon:
+        for n in g.nodes:
+            if isinstance(n, SubQuery) and n.alias == f"subquery_{hash(n)}":
+                anon[n.alias] = "subquery_<" + n.query_raw + ">"
+            if isinstance(n, Column):
+                for p in n._parent:
+                    if isinstance(p, SubQuery) and p.alias == f"subquery_{hash(p)}":
+                        anon[p.alias] = "subquery_<" + p.query_raw + ">"
+    def sn(n):
+        if isinstance(n, str) and n in anon:
+            return "A:" + anon[n]
+        return s_node(n, canon)
+    ns = sorted(sn(n) + "[" + ",".join(sorted(k for k, v in a.items() if v is True)) + "]" for n, a in g.nodes(data=True))
+    es = sorted(sn(u) + ">" + sn(v) + ":" + str(a.get("type", "")) for u, v, a in g.edges(data=True))
     return "N=" + ";".join(ns) + "#E=" + ";".join(es)
 
 
